@@ -206,7 +206,8 @@ CONFIGS = {
     'InvertImg': [{}],
     'RandomGamma': [{}, {'gamma_limit': (50, 150)}, {'gamma_limit': 120}],
     'RandomBrightnessContrast': [{}, {'max_brightness': 200}, {'brightness_limit': 0.5, 'contrast_limit': 0.4}, {'max_brightness': 1.0}],
-    'GaussNoise': [{}, {'var_limit': 20.0, 'mean': 3}, {'var_limit': (5.0, 30.0), 'per_channel': False}],
+    'GaussNoise': [{}, {'var_limit': 20.0, 'mean': 3}, {'var_limit': (5.0, 30.0), 'per_channel': False},
+                   {'apply_to_channel_idx': 0, 'var_limit': 30.0}, {'apply_to_channel_idx': 1, 'var_limit': 30.0, 'per_channel': False}],
     'Posterize': [{'num_bits': 4}, {'num_bits': (2, 6)}, {'num_bits': 1}],
     'Blur': [{}, {'blur_limit': (3, 5), 'by_slice': True}, {'mode': 'reflect'}, {'mode': 'nearest', 'cval': 3}, {'mode': 'wrap'},
              {'blur_limit': (4, 4)}, {'blur_limit': (2, 6), 'by_slice': True}, {'blur_limit': (6, 6), 'mode': 'reflect'},
@@ -228,6 +229,8 @@ def check(case):
     kw = {k: (tuple(v) if isinstance(v, list) else v) for k, v in kw.items()}
     shape = tuple(case['shape']) + ((case['channels'],) if case['channels'] else ())
     rs = np.random.RandomState(case['seed'] % 99989)
+    if 'apply_to_channel_idx' in kw and len(shape) == 3:
+        shape = shape + (2,)           # the option addresses a channel: needs a channel axis
     img = make_blocks(dt, shape, rs) if case.get('structure') == 'blocks' else make_image(dt, shape, rs)
     if name == 'RandomBrightnessContrast' and kw.get('max_brightness') == 1.0 and not dt.startswith('float'):
         kw['max_brightness'] = 200
@@ -253,6 +256,14 @@ def check(case):
     if name not in ('Normalize',) and not custom and want_dt != 'float64' and LO.get(want_dt) is not None:
         if out.min() < LO[want_dt] or out.max() > HI[want_dt]:
             return ('range', 'values in [%s, %s]' % (out.min(), out.max()), 'inside [%s, %s]' % (LO[want_dt], HI[want_dt]))
+    if kw.get('apply_to_channel_idx') is not None and out.ndim == 4:
+        k_ = kw['apply_to_channel_idx']
+        others = [c for c in range(out.shape[-1]) if c != k_]
+        if any(not np.array_equal(out[..., c], img[..., c]) for c in others):
+            return ('channel', 'channels %s changed as well' % [c for c in others if not np.array_equal(out[..., c], img[..., c])],
+                    'only channel %d receives noise, every other channel bit-identical' % k_)
+        if np.array_equal(out[..., k_], img[..., k_]):
+            return ('channel', 'channel %d unchanged' % k_, 'noise on channel %d' % k_)
     e = expected(name, kw, prm, img, dt)
     if e is not None:
         exp, tol = e
